@@ -254,6 +254,9 @@ func histRun(env *sess.Env, sc *histScenario, cfg histCfg) histResult {
 			if op.Kind == "delete" || op.Kind == "replace" {
 				what = op.Kind
 			}
+			if op.Kind == "sweep" {
+				what = "delete"
+			}
 			// is the difference outside the operation's footprint?
 			if len(op.At) > 0 && model.Diff(normalise(before.Without(op.At)), normalise(walked.Without(op.At)), true) != "" {
 				what = "outside-footprint"
